@@ -10,6 +10,7 @@ import (
 	"crypto/tls"
 	"errors"
 	"fmt"
+	"io"
 	"net"
 	"strings"
 	"sync"
@@ -53,7 +54,7 @@ func (c *c15Case) classify() {
 }
 
 func (c *c15Case) coq() string {
-	kinds := map[string]string{"mem": "KTcp", "tcp": "KTcp", "tcptls": "KTcp", "ws": "KWs", "inproc": "KInproc"}
+	kinds := map[string]string{"mem": "KTcp", "memtr": "KTcp", "tcp": "KTcp", "tcptls": "KTcp", "ws": "KWs", "inproc": "KInproc"}
 	ops := map[string]string{"send": "OpSend", "receive": "OpReceive", "accept": "OpAccept", "channelsend": "OpChannelSend",
 		"process": "OpProcessCommand", "establish": "OpEstablish", "tls": "OpTlsUpgrade", "clientfinish": "OpClientFinish",
 		"serverfinish": "OpServerFinish"}
@@ -96,11 +97,16 @@ func c15Transports(kind string) (lime.Transport, *c15Peer, error) {
 	ctx, cancel := context.WithTimeout(context.Background(), 5*time.Second)
 	defer cancel()
 	switch kind {
-	case "mem":
+	case "mem", "memtr":
 		c, s := memconn.Pipe(4096)
 		p.mem = s
 		p.stop = append(p.stop, func() { _ = c.Close(); _ = s.Close() })
-		return lime.NewTCPTransportOverConn(c, false, nil), p, nil
+		var cfg *lime.TCPConfig
+		if kind == "memtr" {
+			// with a trace writer configured (the reader and writer are wrapped once more)
+			cfg = &lime.TCPConfig{TraceWriter: &discardTrace{w: io.Discard}}
+		}
+		return lime.NewTCPTransportOverConn(c, false, cfg), p, nil
 	case "tcp":
 		ln, err := net.Listen("tcp", "127.0.0.1:0")
 		if err != nil {
@@ -460,7 +466,7 @@ func (c *c15Case) run() {
 func runC15(env *Env) error {
 	env.Header = "From Coq Require Import ZArith List Bool.\nImport ListNotations.\nFrom Lime Require Import Base.Res Life.Timing Corr.C15.\n"
 	env.ShardSize = 200
-	env.Rule = "every context-taking operation (transport Send/Receive, listener Accept, channel send, ProcessCommand, client EstablishSession, TLS upgrade, client and server FinishSession) x transports (TCP over an in-memory connection and over loopback, TCP upgraded to TLS, WebSocket - also with socket buffers filled beforehand and a context already over on entry -, in-process) x peer silent / not reading with full buffers / answering at a known time x deadline or cancellation at 250-400 ms; the return time is measured. Non-trivial: the peer never does what is awaited (the context has to end the operation). Distinct by printed case."
+	env.Rule = "every context-taking operation (transport Send/Receive, listener Accept, channel send, ProcessCommand, client EstablishSession, TLS upgrade, client and server FinishSession) x transports (TCP over an in-memory connection and over loopback, TCP upgraded to TLS, TCP with a trace writer configured, WebSocket - also with socket buffers filled beforehand and a context already over on entry -, in-process) x peer silent / not reading with full buffers / answering at a known time x deadline or cancellation at 250-400 ms; the return time is measured. Non-trivial: the peer never does what is awaited (the context has to end the operation). Distinct by printed case."
 	var rc c15Case
 	if ok, err := env.ReplayDesc(&rc); err != nil {
 		return err
@@ -495,6 +501,8 @@ func runC15(env *Env) error {
 	add("tcp", "tls")
 	add("tcptls", "send")
 	add("tcptls", "receive")
+	add("memtr", "send")
+	add("memtr", "receive")
 	// WebSocket Send with the socket buffers already full: a context that is over on entry, a deadline, a cancellation
 	cases = append(cases, &c15Case{Kind: "ws", Op: "send", Ctx: "deadline", CtxMs: 0, EvMs: -1, Full: true},
 		&c15Case{Kind: "ws", Op: "send", Ctx: "deadline", CtxMs: 300, EvMs: -1, Full: true},
